@@ -129,7 +129,7 @@ def swept_twin(case, k):
     import copy
     r = random.Random(k)
     twin = copy.deepcopy(case)
-    what = r.choice(['CL', 'R', 'all'])             # which values the sweep changes (a memo may leave any of them out of its key)
+    what = ['R', 'CL', 'all'][(k // 4) % 3]          # which values the sweep changes (a memo may leave any of them out of its key)
     for c in twin['components']:
         if c['kind'] == 'capacitor' and what in ('CL', 'all'):
             c['params']['C'] = r.choice([v for v in ssrun.C_VALUES if v != c['params']['C']])
